@@ -47,6 +47,7 @@ func NewConn(ctx context.Context, parent net.Conn) *Conn {
 
 //goland:noinspection SpellCheckingInspection
 func (c *Conn) Watch() {
+	defer close(c.receiveQueue) // only the sender closes: nothing is sent after Watch has returned
 	defer c.cancel()
 	var err error
 	var packet interface{}
@@ -76,7 +77,11 @@ func (c *Conn) Watch() {
 		} else if callback, ok := c.take(ReadSequence(packet)); ok {
 			callback(packet)
 		} else {
-			c.receiveQueue <- packet
+			select {
+			case c.receiveQueue <- packet:
+			case <-c.ctx.Done():
+				return
+			}
 		}
 	}
 }
@@ -161,7 +166,6 @@ func (c *Conn) Close() (err error) {
 	defer cancel()
 	defer c.cancel()
 	if _, err = c.Submit(ctx, new(Unbind)); err == nil {
-		close(c.receiveQueue)
 		err = c.parent.Close()
 	}
 	return
